@@ -42,6 +42,13 @@ CHECKS = {
         'plus a contract monitor of the same law on real String/Formula/Numerical/Matrix graders used one after another.',
    note=PROOF_NOTE + ' Formula/Numerical/Matrix check_response functions are parameters of the theorem; that they go through the same ItemGrader.check is monitored, not proved.',
    technique='Lean 4 proof (max/first-max lemmas, permutation invariance) + exact correspondence over listing orders', design='§6 C08'),
+ 'C07': dict(
+   text='SingleListGrader.check_response / process_grade_list / consolidate_grades / find_optimal_order modelled over an arbitrary subgrader; proved: the grade is answer credit x credit(max 0 ((best - surplus)/n_expected)) '
+        'with best = total of an assignment no other one-to-one assignment beats (corollary of the Munkres theorem on the padded square credit matrix) resp. the positional total when ordered; partial_credit=False gives the answer credit or 0; '
+        'message rule; length_error checked first, missing_error lists exactly the blank positions. Tie: real SingleListGraders (flat and one nesting level, single/multi-character delimiters, all options) over a table-driven subgrader with exact Fraction credits, '
+        'compared exactly incl. the tie choices of the matching; brute-force oracle over all injective assignments; permutation invariance checked on the implementation.',
+   note=PROOF_NOTE + ' Permutation invariance of the unordered grade is checked per case on the implementation (oracle) and follows from optimality; it is not yet stated as a separate Lean theorem.',
+   technique='Lean 4 proof (credit formula via Munkres optimality theorem) + exact correspondence + brute-force oracle', design='§6 C07'),
 }
 NA_REASON = 'check not built yet in this round (planned: see DESIGN.md §6); not claimed until its model, theorems and correspondence exist'
 
